@@ -35,9 +35,13 @@ pub enum End {
     FinishedHeld,
     /// split; the send half has finished and is dropped, the receive half is kept
     SplitSendFinishedRecvHeld,
+    /// RESET after the handler has buffered half of the HEADERS frame (the peer stops in the middle of a frame)
+    ResetMidHeaders,
+    /// RESET after the handler has buffered the head and half of a DATA frame
+    ResetMidData,
 }
 
-pub const ENDS: [End; 12] = [
+pub const ENDS: [End; 14] = [
     End::Normal,
     End::DropResolver,
     End::FinBeforeHeaders,
@@ -50,6 +54,8 @@ pub const ENDS: [End; 12] = [
     End::StillRunning,
     End::FinishedHeld,
     End::SplitSendFinishedRecvHeld,
+    End::ResetMidHeaders,
+    End::ResetMidData,
 ];
 
 #[derive(Clone, Debug)]
@@ -62,6 +68,9 @@ pub struct Case {
     /// the identifiers of the GOAWAY frames the peer sends at that point (client to server they are push ids: any
     /// value is legal, as long as a later one is not larger)
     pub goaway_ids: Vec<u64>,
+    /// the server sends grease and the peer never grants the (fourth) unidirectional stream the grease needs: the
+    /// optional grease stream stays pending for the whole run and must not hold anything up
+    pub grease_starved: bool,
 }
 
 #[derive(Debug, Clone, Default, PartialEq, Eq)]
@@ -85,15 +94,20 @@ const HORIZON: usize = 20_000;
 
 pub fn execute(case: &Case, seed: u64) -> Outcome {
     fastrand::seed(seed);
-    let net = Net::new(NetCfg::default());
+    let mut ncfg = NetCfg::default();
+    if case.grease_starved {
+        ncfg.uni_credit[SERVER] = Some(3);
+    }
+    let net = Net::new(ncfg);
     let mut ex = Exec::new();
     let out = shared(Outcome::default());
     let live = shared(0usize);
+    let grease = case.grease_starved;
     {
         let (net2, sp, out2, live2, ends) = (net.clone(), ex.spawner(), out.clone(), live.clone(), case.ends.clone());
         ex.spawn("accept-loop", async move {
             let mut b = h3::server::builder();
-            b.send_grease(false).max_field_section_size(LIMIT);
+            b.send_grease(grease).max_field_section_size(LIMIT);
             let mut conn: SrvConn = match b.build(SimConn::new(&net2, SERVER)).await {
                 Ok(c) => c,
                 Err(_) => return,
@@ -228,6 +242,16 @@ pub fn execute(case: &Case, seed: u64) -> Outcome {
                         yield_now().await;
                         net.raw_reset(CLIENT, id, 0x10c);
                     }
+                    End::ResetMidHeaders | End::ResetMidData => {
+                        let head_len = rf::frame(rf::HEADERS, REQ_SECTION).len();
+                        let cut = if case.ends[(id / 4) as usize] == End::ResetMidHeaders { head_len / 2 } else { head_len + 4 };
+                        net.raw_write(CLIENT, id, &valid[..cut]);
+                        // let the server read (and buffer) the incomplete frame before the reset arrives
+                        for _ in 0..6 {
+                            yield_now().await;
+                        }
+                        net.raw_reset(CLIENT, id, 0x10c);
+                    }
                     End::Malformed => {
                         let sec = rq::encode_literal_section(&[f(":method", b"GET"), f(":scheme", b"https"), f(":authority", b"a"), f(":path", b"/"), f("Upper", b"v")], false);
                         net.raw_write(CLIENT, id, &rf::frame(rf::HEADERS, &sec));
@@ -349,7 +373,7 @@ pub fn burst_run(n: usize) -> (Vec<String>, bool, usize, Vec<(String, String)>) 
 }
 
 pub fn judge(case: &Case, o: &Outcome) -> Vec<(String, String)> {
-    let ctx = format!("requests (by stream id / 4) ending {:?}, arriving in {} id order, peer GOAWAY{} before arrival #{}", case.ends, if case.reversed { "descending" } else { "ascending" }, if case.goaway_ids != [0] { format!(" (identifiers {:?})", case.goaway_ids) } else { String::new() }, case.goaway_at);
+    let ctx = format!("requests (by stream id / 4) ending {:?}, arriving in {} id order, peer GOAWAY{} before arrival #{}", case.ends, if case.reversed { "descending" } else { "ascending" }, if case.goaway_ids != [0] { format!(" (identifiers {:?}){}", case.goaway_ids, if case.grease_starved { ", grease stream starved" } else { "" }) } else if case.grease_starved { " (grease stream starved)".to_string() } else { String::new() }, case.goaway_at);
     let mut out = Vec::new();
     for (t, p) in &o.panics {
         out.push((format!("C09:panic@{}", explore::panics::short_loc(p)), format!("{ctx}: task {t} panicked: {p}")));
@@ -396,7 +420,7 @@ pub fn run(args: &Args) -> i32 {
     let mut rep = Report::new("C09", args.tier, args.seed, "model_checking");
     rep.exhaustive = true;
     rep.rule = format!(
-        "0..{n} requests, each ending in one of {{normal finish, resolver dropped before resolve_request, FIN before HEADERS, RESET before HEADERS, RESET after HEADERS, malformed headers, oversized headers, split into halves dropped send-first / recv-first, handler still running, response finished but the handle kept, split with the send half finished and dropped and the receive half kept}} (all {}^k assignments), the peer's GOAWAY injected before each request and after the last, requests arriving in ascending and in descending stream-ID order, the peer's GOAWAY carrying identifier 0, 0 twice, 3, 2^62-1, or 2^62-1 followed by 1 (client to server these are push ids; any value is legal), every execution with <= {bound} scheduling deviations among the accept loop, the handler tasks and the script. Oracle at quiescence: GOAWAY delivered and every handed-out request ended => accept() has returned Ok(None); accept() never returns Ok(None) while a handler still holds a request handle. states = distinct (transport, progress) fingerprints; non-trivial = cases with at least one request.",
+        "0..{n} requests, each ending in one of {{normal finish, resolver dropped before resolve_request, FIN before HEADERS, RESET before HEADERS, RESET after HEADERS, RESET after half of the HEADERS frame / half of a DATA frame has been read, malformed headers, oversized headers, split into halves dropped send-first / recv-first, handler still running, response finished but the handle kept, split with the send half finished and dropped and the receive half kept}} (all {}^k assignments), the peer's GOAWAY injected before each request and after the last, requests arriving in ascending and in descending stream-ID order, the peer's GOAWAY carrying identifier 0, 0 twice, 3, 2^62-1, or 2^62-1 followed by 1 (client to server these are push ids; any value is legal), histories of <= 2 requests also with grease enabled and its unidirectional stream never granted by the peer, every execution with <= {bound} scheduling deviations among the accept loop, the handler tasks and the script. Oracle at quiescence: GOAWAY delivered and every handed-out request ended => accept() has returned Ok(None); accept() never returns Ok(None) while a handler still holds a request handle. states = distinct (transport, progress) fingerprints; non-trivial = cases with at least one request.",
         ENDS.len()
     );
     rep.assumptions = vec!["liveness is decided at quiescence of the closed world (no timers, nothing in flight), where 'still pending' means 'pending forever'".into()];
@@ -418,13 +442,14 @@ pub fn run(args: &Args) -> i32 {
     }
     for c in combos {
         for g in 0..=c.len() {
-            cases.push(Case { ends: c.clone(), goaway_at: g, reversed: false, goaway_ids: vec![0] });
+            cases.push(Case { ends: c.clone(), goaway_at: g, reversed: false, goaway_ids: vec![0], grease_starved: false });
             if c.len() >= 2 {
-                cases.push(Case { ends: c.clone(), goaway_at: g, reversed: true, goaway_ids: vec![0] });
+                cases.push(Case { ends: c.clone(), goaway_at: g, reversed: true, goaway_ids: vec![0], grease_starved: false });
             }
             if c.len() <= 2 {
+                cases.push(Case { ends: c.clone(), goaway_at: g, reversed: false, goaway_ids: vec![0], grease_starved: true });
                 for ids in [vec![0, 0], vec![3], vec![(1 << 62) - 1], vec![(1 << 62) - 1, 1]] {
-                    cases.push(Case { ends: c.clone(), goaway_at: g, reversed: false, goaway_ids: ids });
+                    cases.push(Case { ends: c.clone(), goaway_at: g, reversed: false, goaway_ids: ids, grease_starved: false });
                 }
             }
         }
@@ -458,7 +483,7 @@ pub fn run(args: &Args) -> i32 {
         if !case.ends.is_empty() {
             acc.nontrivial.insert(explore::fnv_str(&format!("{case:?}")));
         }
-        viol.drain_into(acc, |choices| json!({"ends": case.ends.iter().map(|e| format!("{e:?}")).collect::<Vec<_>>(), "goaway_at": case.goaway_at, "reversed": case.reversed, "goaway_ids": case.goaway_ids, "choices": choices, "seed": seed}));
+        viol.drain_into(acc, |choices| json!({"ends": case.ends.iter().map(|e| format!("{e:?}")).collect::<Vec<_>>(), "goaway_at": case.goaway_at, "reversed": case.reversed, "goaway_ids": case.goaway_ids, "grease_starved": case.grease_starved, "choices": choices, "seed": seed}));
     });
     let mut total = Acc::new();
     for a in accs {
@@ -502,6 +527,7 @@ pub fn replay(r: &Value) -> i32 {
         ends: r["ends"].as_array().unwrap().iter().map(|s| *ENDS.iter().find(|e| format!("{e:?}") == s.as_str().unwrap()).unwrap()).collect(),
         goaway_at: r["goaway_at"].as_u64().unwrap() as usize,
         reversed: r["reversed"].as_bool().unwrap_or(false),
+        grease_starved: r["grease_starved"].as_bool().unwrap_or(false),
         goaway_ids: match r["goaway_ids"].as_array() {
             Some(a) => a.iter().map(|v| v.as_u64().unwrap()).collect(),
             None => if r["goaway_twice"].as_bool().unwrap_or(false) { vec![0, 0] } else { vec![0] },
